@@ -22,7 +22,7 @@ ASSUMPTIONS = ['dtcwt 0.14 NumPy forward is the reference for the linear stages'
                'last ceil((8-r)/2) rows/columns repeated (order 2)']
 TIMEOUT = {'quick': 900, 'thorough': 3300}
 WORKER_BUDGET = {'quick': 600, 'thorough': 2700}
-MIN_HELD = {'quick': 200, 'thorough': 1000}
+MIN_HELD = {'quick': 200, 'thorough': 90000}
 BIORTS = ['near_sym_a', 'near_sym_b', 'near_sym_b_bp', 'antonini', 'legall']
 SIDES = [2, 3, 4, 5, 7, 8, 9, 10, 12, 13, 16, 20, 24, 29, 30, 31, 32, 34]
 KINDS = ['randn', 'zeros', 'impulse', 'sparse', 'const', 'big', 'small', 'dynrange']
